@@ -83,6 +83,35 @@ def check_default(sel, st):
     return res.status
 
 
+def check_client(sel, st):
+    lists = {cat: names_for(cat, classes) for cat, classes in zip(CATS, sel)}
+    cli = peer.Client(kex=lists['kex'], key=lists['key'], enc=lists['enc'], mac=lists['mac'], banner=b'SSH-2.0-OpenSSH_9.6')
+    for opts in (['-n'], ['-n', '-j'], ['-n', '-l', 'fail', '-b']):
+        res = H.client_audit(cli, opts=opts)
+        if opts == ['-n']:
+            exp = fold(report.TextReport(res.stdout).levels())
+        st.execution(res.world, outcome=('client', res.status, exp), root=('client-sev', sel, tuple(opts)), nontrivial=('client-sev', sel, tuple(opts)), detail='light')
+        if res.status != exp:
+            st.violation('client-audit:status-%s-but-report-folds-to-%s' % (res.status, exp), {'sel': [list(x) for x in sel], 'opts': opts, 'status': res.status})
+
+
+def work_client(chunk, st):
+    for sel in chunk:
+        check_client(sel, st)
+
+
+def work_ssh1(chunk, st):
+    for cm, am in chunk:
+        for opts in (['-n', '-1'], ['-n', '-1', '-j'], ['-n', '-1', '-l', 'warn']):
+            srv = peer.Server(banner=b'SSH-1.5-OpenSSH_3.4', ssh1={'cmask': cm, 'amask': am})
+            res = H.audit(srv, opts=opts + ['--skip-rate-test'])
+            if opts == ['-n', '-1']:
+                exp = fold(report.TextReport(res.stdout).levels())
+            st.execution(res.world, outcome=('ssh1', res.status, exp), root=('ssh1-sev', cm, am, tuple(opts)), nontrivial=('ssh1-sev', cm, am, tuple(opts)), detail='light')
+            if res.status != exp:
+                st.violation('ssh1:status-%s-but-report-folds-to-%s' % (res.status, exp), {'cmask': cm, 'amask': am, 'opts': opts, 'status': res.status})
+
+
 def work_sev(chunk, st):
     for sel in chunk:
         check_default(sel, st)
@@ -250,6 +279,8 @@ def run(tier, seed):
     # option sets: all selections of total length <= 3
     optsel = [s for s in itertools.product(l2, repeat=4) if sum(len(x) for x in s) <= (2 if tier == 'quick' else 3)]
     par.pmap(work_opts, optsel, stats=st)
+    par.pmap(work_client, [s for s in itertools.product(l1, repeat=4)] + ([s for s in sev if sum(len(x) for x in s) <= 4][::7] if tier != 'quick' else []), stats=st)
+    par.pmap(work_ssh1, [(c, a) for c in range(0, 128, 1 if tier != 'quick' else 3) for a in (0, 0x0c, 0x2c, 0x7e)], stats=st)
     par.pmap(work_broken, broken_tasks(tier), stats=st)
     par.pmap(work_policy, policy_cases(), stats=st, procs=1)
     vcases = []
